@@ -78,7 +78,7 @@ package smtp
 // ---------------------------------------------------------------------------------------
 
 //@ contract (*Conn).reset(c)
-//@   prop C03 C05 C06 C07 C08 C13 C19
+//@   prop C03 C05 C06 C07 C08 C10 C13 C19
 //@   ensures @C19 the-error-count-belongs-to-the-connection-not-to-the-transaction: c.errCount == old(c.errCount)
 //@   requires connWF(c) && sessOK(c)
 //@   modifies c.bdatPipe, c.bdatStatus, c.bytesReceived, c.fromReceived, c.recipients, c.cbReset, c.bdatPipe.state
@@ -160,7 +160,7 @@ package smtp
 //@   ensures @C06 budget-is-limit: dr.limited == (c.server.MaxMessageBytes > 0) && (dr.limited ==> dr.n == c.server.MaxMessageBytes && dr.limit == c.server.MaxMessageBytes)
 
 //@ contract (*Conn).handleData(c, arg)
-//@   prop C02 C03 C04 C06 C08
+//@   prop C02 C03 C04 C06 C08 C17
 //@   requires connInv(c) && !c.closed && c.server.ErrorLog != nil
 //@   modifies c.bdatPipe, c.bdatStatus, c.bytesReceived, c.fromReceived, c.recipients, c.replies, c.finals, c.lastCode, c.cbData, c.cbReset, c.bdatPipe.state, c.text.R.pos, c.text.R.iofail, c.text.R.unreadable, c.closed, c.session, c.cbLogout, c.session.loggedOut, *chan
 //@   ensures inv: connInv(c)
@@ -170,9 +170,9 @@ package smtp
 //@   ensures @C03 transaction-ends: c.cbData != old(c.cbData) ==> !c.fromReceived && len(c.recipients) == 0 && c.bdatPipe == nil && (c.cbReset == old(c.cbReset) + 1 || c.closed)
 //@   ensures @C02 resync: c.cbData != old(c.cbData) ==> dS(c.text.R.in, old(c.text.R.pos), c.text.R.pos) == 5 || c.text.R.iofail || c.closed
 //@   ensures @C02 stream-only-forward: (c.text.R.pos >= old(c.text.R.pos) || c.closed) && c.text == old(c.text) && c.text.R == old(c.text.R)
-//@   before dataErrorToStatus: @C04 the-verdict-is-the-backends-result-for-this-message: $0 == resultof("Session.Data", 1, 1)
+//@   before dataErrorToStatus: @C04,C17 the-verdict-is-the-backends-result-for-this-message: $0 == resultof("Session.Data", 1, 1)
 //@   before (*Conn).writeResponse: @C04 final-reply-positive-exactly-when-the-backend-accepted: called("Session.Data") ==> (c.cbData != old(c.cbData) ==> ($1 == 250 <==> resultof("Session.Data", 1, 1) == nil))
-//@   before (*Conn).writeResponse: @C04 a-backend-smtp-error-keeps-its-code: called("Session.Data") ==> (c.cbData != old(c.cbData) && istype(resultof("Session.Data", 1, 1), "*SMTPError") ==> $1 == asref(resultof("Session.Data", 1, 1), "*SMTPError").Code)
+//@   before (*Conn).writeResponse: @C04,C17 a-backend-smtp-error-keeps-its-code: called("Session.Data") ==> (c.cbData != old(c.cbData) && istype(resultof("Session.Data", 1, 1), "*SMTPError") ==> $1 == asref(resultof("Session.Data", 1, 1), "*SMTPError").Code)
 
 // ---------------------------------------------------------------------------------------
 // Greeting, MAIL, RCPT
@@ -230,6 +230,8 @@ package smtp
 //@   ensures @C03 at-most-one-callback: c.cbMail == old(c.cbMail) || c.cbMail == old(c.cbMail) + 1
 //@   ensures @C03 accepted-only-by-backend: c.fromReceived && !old(c.fromReceived) ==> c.cbMail == old(c.cbMail) + 1 && c.lastCode == 250
 //@   ensures @C03 refused-without-callback-is-5xx: c.cbMail == old(c.cbMail) ==> c.lastCode >= 500 && c.lastCode <= 599
+//@   before strings.TrimSpace: @C11 the-path-is-looked-for-right-after-from-colon: len(arg0) >= 5 && $0 == arg0[5:]
+//@   before (*parser).parseReversePath: @C11 the-parser-is-given-the-rest-of-this-line-without-surrounding-blanks: p.s == resultof("strings.TrimSpace", 1, 1)
 //@   before Session.Mail: @C11,C14 mailbox-as-parsed-from-this-line: $1 == resultof("(*parser).parseReversePath", 1, 1) && $1 == from
 //@   before Session.Mail: @C11,C14 fresh-options-object: $2 == opts && !wasalloc($2)
 //@   before Session.Mail: @C11,C14 size-is-the-decoded-value-or-zero: (has(args, "SIZE") ==> $2.Size == puVal(args["SIZE"], 10)) && (!has(args, "SIZE") ==> $2.Size == 0)
@@ -285,6 +287,8 @@ package smtp
 //@   before strings.Cut: @C12 a-parameter-of-a-disabled-extension-is-refused-before-its-value-is-looked-at: c.server.EnableRRVS
 //@   before decodeTypedAddress: @C12 a-parameter-of-a-disabled-extension-is-refused-before-its-value-is-looked-at: c.server.EnableDSN
 //@   before strings.Split: @C12 a-parameter-of-a-disabled-extension-is-refused-before-its-value-is-looked-at: c.server.EnableDSN
+//@   before strings.TrimSpace: @C11 the-path-is-looked-for-right-after-to-colon: len(arg0) >= 3 && $0 == arg0[3:]
+//@   before (*parser).parsePath: @C11 the-parser-is-given-the-rest-of-this-line-without-surrounding-blanks: p.s == resultof("strings.TrimSpace", 1, 1)
 //@   before Session.Rcpt: @C11,C14 mailbox-as-parsed-from-this-line: $1 == resultof("(*parser).parsePath", 1, 1) && $1 == recipient
 //@   before Session.Rcpt: @C11,C14 path-was-accepted-by-the-parser: resultof("(*parser).parsePath", 1, 2) == nil && resultof("parseArgs", 1, 2) == nil
 //@   before Session.Rcpt: @C11,C14 fresh-options-object: $2 == opts && !wasalloc($2)
@@ -311,18 +315,67 @@ package smtp
 //@   prop C11 C19
 //@   requires p != nil
 //@   modifies p.s
+//@   ensures @C11 input-is-consumed-from-the-front: len(p.s) <= len(old(p.s)) && (forall i :: 0 <= i && i < len(p.s) ==> p.s[i] == old(p.s)[len(old(p.s)) - len(p.s) + i])
+//@   ensures @C11 the-null-reverse-path-is-the-empty-sender: len(old(p.s)) >= 2 && old(p.s)[0] == 60 && old(p.s)[1] == 62 ==> err == nil && s == "" && (len(old(p.s)) - len(p.s)) == 2
+//@   ensures @C11 any-other-reverse-path-is-a-path: !(len(old(p.s)) >= 2 && old(p.s)[0] == 60 && old(p.s)[1] == 62) ==> called("(*parser).parsePath") && s == resultof("(*parser).parsePath", 1, 1) && err == resultof("(*parser).parsePath", 1, 2)
+//@   ensures @C11 a-path-is-handed-on-as-the-text-between-its-brackets: err == nil && len(old(p.s)) >= 2 && old(p.s)[0] == 60 && old(p.s)[1] != 64 && old(p.s)[1] != 34 && old(p.s)[1] != 62 ==> len(s) == (len(old(p.s)) - len(p.s)) - 2 && (forall i :: 0 <= i && i < len(s) ==> s[i] == old(p.s)[i + 1]) && old(p.s)[(len(old(p.s)) - len(p.s)) - 1] == 62
+//@   ensures @C11 an-opening-bracket-needs-its-closing-bracket: err == nil && len(old(p.s)) >= 1 && old(p.s)[0] == 60 ==> (len(old(p.s)) - len(p.s)) >= 2 && old(p.s)[(len(old(p.s)) - len(p.s)) - 1] == 62
+//@   ensures @C11 a-well-formed-bracketed-path-is-accepted: len(old(p.s)) >= 1 && old(p.s)[0] == 60 && (exists a: int :: exists e: int :: 2 <= a && a + 2 <= e && e < len(old(p.s)) && (forall i :: 1 <= i && i < a ==> isLtext(old(p.s)[i])) && old(p.s)[a] == 64 && (forall i :: a < i && i < e ==> isDtext(old(p.s)[i])) && old(p.s)[e] == 62) ==> err == nil
 //@ contract (*parser).parsePath(p) (s, err)
 //@   prop C11 C19
 //@   requires p != nil
 //@   modifies p.s
+//@   ensures @C11 input-is-consumed-from-the-front: len(p.s) <= len(old(p.s)) && (forall i :: 0 <= i && i < len(p.s) ==> p.s[i] == old(p.s)[len(old(p.s)) - len(p.s) + i])
+//@   ensures @C11 a-path-is-handed-on-as-the-text-between-its-brackets: err == nil && len(old(p.s)) >= 2 && old(p.s)[0] == 60 && old(p.s)[1] != 64 && old(p.s)[1] != 34 ==> len(s) == (len(old(p.s)) - len(p.s)) - 2 && (forall i :: 0 <= i && i < len(s) ==> s[i] == old(p.s)[i + 1]) && old(p.s)[(len(old(p.s)) - len(p.s)) - 1] == 62
+//@   ensures @C11 an-opening-bracket-needs-its-closing-bracket: err == nil && len(old(p.s)) >= 1 && old(p.s)[0] == 60 ==> (len(old(p.s)) - len(p.s)) >= 2 && old(p.s)[(len(old(p.s)) - len(p.s)) - 1] == 62
+//@   ensures @C11 a-path-without-brackets-is-handed-on-as-it-was-sent: err == nil && len(old(p.s)) >= 1 && old(p.s)[0] != 60 && old(p.s)[0] != 64 && old(p.s)[0] != 34 ==> len(s) == (len(old(p.s)) - len(p.s)) && (forall i :: 0 <= i && i < len(s) ==> s[i] == old(p.s)[i])
+//@   ensures @C11 the-mailbox-is-the-one-the-mailbox-parser-accepted: err == nil ==> called("(*parser).parseMailbox") && s == resultof("(*parser).parseMailbox", 1, 1) && resultof("(*parser).parseMailbox", 1, 2) == nil
+//@   ensures @C11 a-path-without-source-route-is-refused-only-for-its-mailbox-or-a-missing-closing-bracket: err != nil && !(len(old(p.s)) >= 1 && (old(p.s)[0] == 64 || (len(old(p.s)) >= 2 && old(p.s)[0] == 60 && old(p.s)[1] == 64))) ==> resultof("(*parser).parseMailbox", 1, 2) != nil || (len(old(p.s)) >= 1 && old(p.s)[0] == 60 && (len(p.s) == 0 || p.s[0] != 62))
+//@   before (*parser).parseMailbox: @C11 what-is-left-for-the-mailbox-parser-is-the-rest-of-the-input: len(p.s) <= len(old(p.s)) && (forall i :: 0 <= i && i < len(p.s) ==> p.s[i] == old(p.s)[len(old(p.s)) - len(p.s) + i])
+//@   before (*parser).parseMailbox: @C11 the-mailbox-parser-starts-right-after-the-opening-bracket: (len(old(p.s)) >= 1 && old(p.s)[0] == 60 && (len(old(p.s)) < 2 || old(p.s)[1] != 64) ==> len(p.s) == len(old(p.s)) - 1) && ((len(old(p.s)) == 0 || (old(p.s)[0] != 60 && old(p.s)[0] != 64)) ==> len(p.s) == len(old(p.s)))
+//@   ensures @C11 a-well-formed-bracketed-path-is-accepted: len(old(p.s)) >= 1 && old(p.s)[0] == 60 && (exists a: int :: exists e: int :: 2 <= a && a + 2 <= e && e < len(old(p.s)) && (forall i :: 1 <= i && i < a ==> isLtext(old(p.s)[i])) && old(p.s)[a] == 64 && (forall i :: a < i && i < e ==> isDtext(old(p.s)[i])) && old(p.s)[e] == 62) ==> err == nil
 //@ contract (*parser).parseMailbox(p) (s, err)
 //@   prop C11 C19
 //@   requires p != nil
 //@   modifies p.s
+//@   ensures @C11 input-is-consumed-from-the-front: len(p.s) <= len(old(p.s)) && (forall i :: 0 <= i && i < len(p.s) ==> p.s[i] == old(p.s)[len(old(p.s)) - len(p.s) + i])
+//@   ensures @C11 an-unquoted-mailbox-is-handed-on-as-it-was-sent: err == nil && len(old(p.s)) >= 1 && old(p.s)[0] != 34 ==> len(s) == (len(old(p.s)) - len(p.s)) && (forall i :: 0 <= i && i < len(s) ==> s[i] == old(p.s)[i])
+//@   ensures @C11 local-part-at-sign-domain: err == nil ==> len(resultof("(*parser).parseLocalPart", 1, 1)) >= 1 && len(s) >= len(resultof("(*parser).parseLocalPart", 1, 1)) + 2 && s[len(resultof("(*parser).parseLocalPart", 1, 1))] == 64 && (forall i :: 0 <= i && i < len(resultof("(*parser).parseLocalPart", 1, 1)) ==> s[i] == resultof("(*parser).parseLocalPart", 1, 1)[i])
+//@   ensures @C11 the-domain-is-handed-on-as-it-was-sent-and-holds-no-special: err == nil ==> (forall i :: len(resultof("(*parser).parseLocalPart", 1, 1)) < i && i < len(s) ==> s[i] == old(p.s)[(len(old(p.s)) - len(p.s)) - len(s) + i] && !domStop(s[i]) && (s[len(resultof("(*parser).parseLocalPart", 1, 1)) + 1] != 91 ==> !domSpecial(s[i])))
+//@   ensures @C11 the-mailbox-ends-at-a-blank-or-the-closing-bracket: err == nil ==> len(p.s) == 0 || domStop(p.s[0])
+//@   ensures @C11 an-unquoted-mailbox-holds-no-blank-and-no-closing-bracket: err == nil && len(old(p.s)) >= 1 && old(p.s)[0] != 34 ==> (forall i :: 0 <= i && i < len(s) ==> !domStop(s[i]))
+//@   ensures @C11 a-quoted-local-part-is-followed-by-the-at-sign: err == nil && len(old(p.s)) >= 1 && old(p.s)[0] == 34 ==> qscan(old(p.s), 1) >= 1 && old(p.s)[qscan(old(p.s), 1) + 1] == 64 && len(s) - len(resultof("(*parser).parseLocalPart", 1, 1)) == (len(old(p.s)) - len(p.s)) - qscan(old(p.s), 1) - 1
+//@   ensures @C11 a-well-formed-mailbox-is-accepted: (exists a: int :: exists e: int :: 1 <= a && a + 2 <= e && e <= len(old(p.s)) && (forall i :: 0 <= i && i < a ==> isLtext(old(p.s)[i])) && old(p.s)[a] == 64 && (forall i :: a < i && i < e ==> isDtext(old(p.s)[i])) && (e == len(old(p.s)) || domStop(old(p.s)[e]))) ==> err == nil
+//@   ensures @C11 a-well-formed-mailbox-with-an-address-literal-is-accepted: (exists a: int :: exists e: int :: 1 <= a && a + 2 <= e && e <= len(old(p.s)) && (forall i :: 0 <= i && i < a ==> isLtext(old(p.s)[i])) && old(p.s)[a] == 64 && old(p.s)[a + 1] == 91 && old(p.s)[e - 1] == 93 && (forall i :: a < i && i < e ==> !domStop(old(p.s)[i])) && (e == len(old(p.s)) || domStop(old(p.s)[e]))) ==> err == nil
+//@   ensures @C11 a-well-formed-mailbox-with-a-quoted-local-part-is-accepted: (exists e: int :: len(old(p.s)) >= 1 && old(p.s)[0] == 34 && qscan(old(p.s), 1) >= 2 && qscan(old(p.s), 1) + 3 <= e && e <= len(old(p.s)) && old(p.s)[qscan(old(p.s), 1) + 1] == 64 && (forall i :: qscan(old(p.s), 1) + 1 < i && i < e ==> isDtext(old(p.s)[i])) && (e == len(old(p.s)) || domStop(old(p.s)[e]))) ==> err == nil
+//@   loop 1:
+//@     invariant len(p.s) <= len(old(p.s)) && (forall i :: 0 <= i && i < len(p.s) ==> p.s[i] == old(p.s)[len(old(p.s)) - len(p.s) + i])
+//@     invariant len(resultof("(*parser).parseLocalPart", 1, 1)) >= 1 && len(sb.content) >= len(resultof("(*parser).parseLocalPart", 1, 1)) + 1 && sb.content[len(resultof("(*parser).parseLocalPart", 1, 1))] == 64 && (forall i :: 0 <= i && i < len(resultof("(*parser).parseLocalPart", 1, 1)) ==> sb.content[i] == resultof("(*parser).parseLocalPart", 1, 1)[i])
+//@     invariant (old(p.s)[0] != 34 ==> (len(old(p.s)) - len(p.s)) == len(sb.content)) && (old(p.s)[0] == 34 ==> (len(old(p.s)) - len(p.s)) - len(sb.content) == qscan(old(p.s), 1) + 1 - len(resultof("(*parser).parseLocalPart", 1, 1)) && qscan(old(p.s), 1) >= 1 && old(p.s)[qscan(old(p.s), 1) + 1] == 64)
+//@     invariant len(old(p.s)) >= 1 && (len(old(p.s)) - len(p.s)) >= len(sb.content) && old(p.s)[(len(old(p.s)) - len(p.s)) - len(sb.content) + len(resultof("(*parser).parseLocalPart", 1, 1))] == 64
+//@     invariant @C11 domain-so-far-is-what-was-read-and-holds-no-special: forall i :: len(resultof("(*parser).parseLocalPart", 1, 1)) < i && i < len(sb.content) ==> sb.content[i] == old(p.s)[(len(old(p.s)) - len(p.s)) - len(sb.content) + i] && !domStop(sb.content[i]) && (!literal ==> !domSpecial(sb.content[i]))
+//@     invariant @C11 no-special-in-the-domain-so-far: forall j :: (len(old(p.s)) - len(p.s)) - len(sb.content) + len(resultof("(*parser).parseLocalPart", 1, 1)) < j && j < (len(old(p.s)) - len(p.s)) ==> !domStop(old(p.s)[j]) && (!literal ==> !domSpecial(old(p.s)[j]))
+//@     invariant literal == ((len(old(p.s)) - len(p.s)) - len(sb.content) + len(resultof("(*parser).parseLocalPart", 1, 1)) + 1 < len(old(p.s)) && old(p.s)[(len(old(p.s)) - len(p.s)) - len(sb.content) + len(resultof("(*parser).parseLocalPart", 1, 1)) + 1] == 91)
 //@ contract (*parser).parseLocalPart(p) (s, err)
 //@   prop C11 C19
 //@   requires p != nil
 //@   modifies p.s
+//@   ensures @C11 input-is-consumed-from-the-front: len(p.s) <= len(old(p.s)) && (forall i :: 0 <= i && i < len(p.s) ==> p.s[i] == old(p.s)[len(old(p.s)) - len(p.s) + i])
+//@   ensures @C11 a-dot-string-is-handed-on-as-it-was-sent: err == nil && (len(old(p.s)) == 0 || old(p.s)[0] != 34) ==> len(s) == len(old(p.s)) - len(p.s) && (forall i :: 0 <= i && i < len(s) ==> s[i] == old(p.s)[i])
+//@   ensures @C11 a-dot-string-contains-no-special-and-ends-at-the-at-sign: err == nil && (len(old(p.s)) == 0 || old(p.s)[0] != 34) ==> (forall i :: 0 <= i && i < len(s) ==> !lpSpecial(s[i]) && s[i] != 64) && (len(p.s) == 0 || p.s[0] == 64)
+//@   ensures @C11 a-dot-string-is-refused-only-for-a-special-in-front-of-the-at-sign: err != nil && (len(old(p.s)) == 0 || old(p.s)[0] != 34) ==> len(p.s) >= 1 && lpSpecial(p.s[0]) && (forall i :: 0 <= i && i < len(old(p.s)) - len(p.s) ==> !lpSpecial(old(p.s)[i]) && old(p.s)[i] != 64)
+//@   ensures @C11 a-quoted-string-ends-at-its-closing-quote: len(old(p.s)) >= 1 && old(p.s)[0] == 34 ==> (err == nil) == (qscan(old(p.s), 1) >= 1) && (err == nil ==> len(old(p.s)) - len(p.s) == qscan(old(p.s), 1) + 1)
+//@   ensures @C11 a-quoted-string-loses-its-quotes-and-escapes-only: len(old(p.s)) >= 1 && old(p.s)[0] == 34 && err == nil ==> len(s) <= len(old(p.s)) - len(p.s) - 2
+//@   ensures @C11 a-quoted-string-with-content-is-not-empty: len(old(p.s)) >= 1 && old(p.s)[0] == 34 && err == nil && qscan(old(p.s), 1) >= 2 ==> len(s) >= 1
+//@   loop 1:
+//@     invariant 1 <= len(old(p.s)) - len(p.s) && len(p.s) <= len(old(p.s)) && old(p.s)[0] == 34 && (forall i :: 0 <= i && i < len(p.s) ==> p.s[i] == old(p.s)[len(old(p.s)) - len(p.s) + i])
+//@     invariant @C11 scan: qscan(old(p.s), len(old(p.s)) - len(p.s)) == qscan(old(p.s), 1)
+//@     invariant len(sb.content) <= len(old(p.s)) - len(p.s) - 1 && (len(old(p.s)) - len(p.s) >= 2 ==> len(sb.content) >= 1)
+//@     backedge @C11 each-octet-kept-is-the-octet-just-read: len(sb.content) == len(head(sb.content)) + 1 && sb.content[len(head(sb.content))] == old(p.s)[len(old(p.s)) - len(p.s) - 1]
+//@   loop 2:
+//@     invariant len(p.s) <= len(old(p.s)) && (len(old(p.s)) == 0 || old(p.s)[0] != 34) && (forall i :: 0 <= i && i < len(p.s) ==> p.s[i] == old(p.s)[len(old(p.s)) - len(p.s) + i])
+//@     invariant @C11 kept-so-far-is-what-was-read: len(sb.content) == len(old(p.s)) - len(p.s) && (forall i :: 0 <= i && i < len(sb.content) ==> sb.content[i] == old(p.s)[i])
+//@     invariant @C11 no-special-so-far: forall i :: 0 <= i && i < len(old(p.s)) - len(p.s) ==> !lpSpecial(old(p.s)[i]) && old(p.s)[i] != 64
 //@ contract checkNotifySet(values) (err)
 //@   prop C11 C14 C15 C19
 //@   ensures @C11,C15,C14 only-the-four-keywords: err == nil ==> len(values) >= 1 && (forall j :: 0 <= j && j < len(values) ==> values[j] == "NEVER" || values[j] == "DELAY" || values[j] == "FAILURE" || values[j] == "SUCCESS")
@@ -483,13 +536,13 @@ package smtp
 //@   before io.Copy: @C05,C19,C04 no-line-limit-on-chunk-octets: c.lineLimitReader.LineLimit == 0 && c.lineLimitReader.curLineLength == 0
 
 //@ contract (*Conn).handleBdat(c, arg)
-//@   prop C03 C04 C05 C06 C07 C08 C19
+//@   prop C03 C04 C05 C06 C07 C08 C17 C19
 //@   nooverflow Conn.bytesReceived + size: with MaxMessageBytes == 0 this needs fewer than 2^63 octets in one transaction
 //@   requires connInv(c) && !c.closed && c.server.ErrorLog != nil
 //@   requires c.lineLimitReader.LineLimit == c.server.MaxLineLength
 //@   modifies c.bdatPipe, c.bdatStatus, c.dataResult, c.bytesReceived, c.fromReceived, c.recipients, c.replies, c.finals, c.lastCode, c.cbReset, c.closed, c.session, c.cbLogout, c.bdatPipe.state, c.bdatPipe.written, c.session.loggedOut, c.text.R.pos, c.text.R.iofail, c.text.R.unreadable, c.lineLimitReader.LineLimit, c.lineLimitReader.curLineLength, *chan
 //@   onrecv errOK($v)
-//@   recv 1: @C04 result-of-this-transfer: $ch == c.dataResult
+//@   recv 1: @C04,C17 result-of-this-transfer: $ch == c.dataResult
 //@   recv 2: @C13 status-of-the-recipient-being-answered: $ch == c.bdatStatus.status[rangeindex + 1]
 //@   before (*io.PipeWriter).Close: @C07,C05 clean-eof-only-after-complete-last-chunk: last && lrOf(chunk).N == 0
 //@   ensures inv: connInv(c)
@@ -521,7 +574,7 @@ package smtp
 // ---------------------------------------------------------------------------------------
 
 //@ contract (*Conn).handle(c, cmd, arg)
-//@   prop C03 C04 C08 C19
+//@   prop C03 C04 C05 C08 C09 C10 C12 C19
 //@   requires connInv(c) && !c.closed
 //@   requires c.lineLimitReader.LineLimit == c.server.MaxLineLength && c.server.ErrorLog != nil
 //@   modifies c.*, c.bdatPipe.state, c.bdatPipe.written, c.session.loggedOut, c.text.R.pos, c.text.R.iofail, c.text.R.unreadable, c.lineLimitReader.LineLimit, c.lineLimitReader.curLineLength, *chan, c.recipients[**]
@@ -533,6 +586,15 @@ package smtp
 //@   ensures @C08 no-session-lost: c.cbNew - c.cbLogout == (c.session != nil ? 1 : 0)
 //@   ensures @C19 error-count: c.errCount == old(c.errCount) || c.errCount == old(c.errCount) + 1
 //@   ensures @C08 quit-is-answered-221-and-ends-the-connection: cmd != "" && upperOf(cmd) == "QUIT" ==> c.lastCode == 221 && c.closed && c.session == nil
+//@   before (*Conn).handleGreet: @C03,C12 only-a-greeting-of-the-servers-flavour-is-accepted: (cmd == "HELO" || cmd == "EHLO" || cmd == "LHLO") && (c.server.LMTP <==> cmd == "LHLO")
+//@   before (*Conn).handleGreet: @C12,C04 extensions-are-listed-for-ehlo-and-lhlo-only: $1 <==> cmd != "HELO"
+//@   before (*Conn).handleMail: @C03 each-handler-serves-its-own-command: cmd == "MAIL"
+//@   before (*Conn).handleRcpt: @C03 each-handler-serves-its-own-command: cmd == "RCPT"
+//@   before (*Conn).handleData: @C03 each-handler-serves-its-own-command: cmd == "DATA"
+//@   before (*Conn).handleBdat: @C03,C05 each-handler-serves-its-own-command: cmd == "BDAT"
+//@   before (*Conn).handleAuth: @C03,C09 each-handler-serves-its-own-command: cmd == "AUTH"
+//@   before (*Conn).handleStartTLS: @C03,C10 each-handler-serves-its-own-command: cmd == "STARTTLS"
+//@   before (*Conn).reset: @C03 each-handler-serves-its-own-command: cmd == "RSET"
 
 // The recover handler of the command dispatcher (C08, C04): a panic while a command is handled (a backend
 // callback, typically) is answered 421 and the connection is given up. Verified for the panicking case
